@@ -410,6 +410,12 @@ def _decide(pid: str, tier: str, seed: int, reg: Any, own: list, results: dict, 
         if b.get("error"):
             checker_errors.append(f"bounded {b.get('name')}: {b['error'].splitlines()[0]}")
         for fl in b.get("failures", []):
+            kid = fl.get("known_id")
+            hit = [k for k in known if kid and k.get("id") == kid]
+            if hit:
+                if not any(h is hit[0] for h, _ in known_hit):
+                    known_hit.append((hit[0], {"unit": b.get("function"), "obligation": fl.get("obligation")}))
+                continue
             violations.append({"unit": b.get("function", b.get("name")), "obligation": fl.get("obligation", b.get("name")),
                                "cex": {"inputs": fl.get("inputs")}, "kind": "bounded", "confirmed": True,
                                "replay_report": {"violations": [fl.get("detail", "")]}, "replay_snippet": fl.get("snippet")})
